@@ -312,8 +312,10 @@ PROP = Prop(
         Layer("matrix", cases=matrix, execute=execute_matrix),
         Layer("histories", strategy=histories, execute=execute_history, budget={"quick": 2000, "thorough": 60000}),
         Layer("shared-context", strategy=shared_context_scenarios, execute=execute_shared_context, budget={"quick": 800, "thorough": 30000}),
+        __import__("vf.props.real", fromlist=["layer_for"]).layer_for("C10", {"quick": 300, "thorough": 8000}),
     ],
-    assumptions=["TLS is a marker layer on the simulated pipe (server_hostname, ALPN offer and ssl context are recorded, no handshake)",
+    assumptions=["TLS is a marker layer on the simulated pipe (server_hostname, ALPN offer and ssl context are recorded, no handshake); layer real-backends "
+                 "performs real handshakes through httpcore's own backends and judges the server name and ALPN list parsed from the ClientHello on the wire",
                  "for CONNECT tunnels either the URL host or the sni_hostname extension is accepted as server name (the property leaves it open)",
                  "IPv6 literal hosts are not generated here (C19 covers their parsing)"],
     explanation="Exhaustive over the configuration matrix; request histories sampled. Concurrent histories are covered by C01/C04.",
